@@ -169,7 +169,8 @@ class Gen:
             lines = ['s = ' + q + 'a', '', 'b', '', 'c' + q]
             kind = 'triple-quoted-blank-inside'
         elif k == 6:
-            lines = ['n = n + \\', '    5']
+            # also splits whose first physical line would be a complete statement without the backslash
+            lines = r.choice([['n = n + \\', '    5'], ['n = n \\', '    + 5'], ['t = n \\', '* 2 \\', '+ 1'], ['s = s \\', '+ "k"'], ['n \\', '+ 1'], ['print(n) \\', '; n += 1'], ['n += 1 \\', '  ; t = 5']])
             kind = 'backslash'
         elif k == 7:
             q = r.choice(["'''", '"""'])
